@@ -1562,3 +1562,472 @@ def _make_gotype(name: str, t: tuple, is_alias: bool, line: int) -> GoType:
 def parse_file(text: str) -> GoFile:
     """Parse one Go source file of the supported subset into a GoFile."""
     return _Parser(text).parse_file()
+
+
+# ---------------------------------------------------------------------------
+# Integer semantics shared by constant folding and the evaluator
+# ---------------------------------------------------------------------------
+
+# name -> (bits, signed)
+_INT_TYPES: Dict[str, Tuple[int, bool]] = {
+    "int8": (8, True), "int16": (16, True), "int32": (32, True), "int64": (64, True),
+    "uint8": (8, False), "uint16": (16, False), "uint32": (32, False), "uint64": (64, False),
+    "byte": (8, False), "int": (64, True), "uint": (64, False), "uintptr": (64, False),
+    "rune": (32, True),
+}
+
+_MAX_CONST_SHIFT = 4096  # guard against absurd constant shifts
+
+
+def _trunc_div(a: int, b: int) -> int:
+    if b == 0:
+        raise EvalError("integer divide by zero")
+    q = abs(a) // abs(b)
+    return q if (a >= 0) == (b >= 0) else -q
+
+
+def _trunc_rem(a: int, b: int) -> int:
+    if b == 0:
+        raise EvalError("integer divide by zero")
+    r = abs(a) % abs(b)
+    return r if a >= 0 else -r
+
+
+def _untyped_binop(op: str, a: Any, b: Any) -> Any:
+    """Binary operation on untyped constants (arbitrary precision)."""
+    ab, bb = isinstance(a, bool), isinstance(b, bool)
+    if isinstance(a, str) or isinstance(b, str):
+        if not (isinstance(a, str) and isinstance(b, str)):
+            raise EvalError(f"mismatched constant kinds in {op}")
+        if op == "+":
+            return a + b
+        if op in ("==", "!=", "<", "<=", ">", ">="):
+            return _compare(op, a, b)
+        raise EvalError(f"operator {op} not defined on string constants")
+    if ab or bb:
+        if not (ab and bb):
+            raise EvalError(f"mismatched constant kinds in {op}")
+        if op == "&&":
+            return a and b
+        if op == "||":
+            return a or b
+        if op == "==":
+            return a == b
+        if op == "!=":
+            return a != b
+        raise EvalError(f"operator {op} not defined on boolean constants")
+    if op == "+":
+        return a + b
+    if op == "-":
+        return a - b
+    if op == "*":
+        return a * b
+    if op == "/":
+        return _trunc_div(a, b)
+    if op == "%":
+        return _trunc_rem(a, b)
+    if op == "&":
+        return a & b
+    if op == "|":
+        return a | b
+    if op == "^":
+        return a ^ b
+    if op == "&^":
+        return a & ~b
+    if op == "<<" or op == ">>":
+        if b < 0:
+            raise EvalError(f"invalid shift count {b} (negative)")
+        if b > _MAX_CONST_SHIFT:
+            raise EvalError(f"constant shift count {b} too large")
+        return a << b if op == "<<" else a >> b
+    if op in ("==", "!=", "<", "<=", ">", ">="):
+        return _compare(op, a, b)
+    raise EvalError(f"operator {op} not defined on integer constants")
+
+
+def _compare(op: str, a: Any, b: Any) -> bool:
+    if op == "==":
+        return a == b
+    if op == "!=":
+        return a != b
+    if op == "<":
+        return a < b
+    if op == "<=":
+        return a <= b
+    if op == ">":
+        return a > b
+    return a >= b
+
+
+# ---------------------------------------------------------------------------
+# B. Structural extraction for standard mode
+# ---------------------------------------------------------------------------
+
+def _unparen(e: tuple) -> tuple:
+    while e[0] == "paren":
+        e = e[1]
+    return e
+
+
+def _const_int(e: tuple) -> Optional[int]:
+    v = _fold_const(e, {})
+    if isinstance(v, bool) or not isinstance(v, int):
+        return None
+    return v
+
+
+def size_constants(gofile: GoFile) -> Dict[str, int]:
+    """``BYTES_LENGTH_*`` constants -> value."""
+    return {c.name: c.value for c in gofile.consts if c.name.startswith("BYTES_LENGTH_")}
+
+
+def size_methods(gofile: GoFile) -> Dict[str, int]:
+    """struct name -> value returned by ``func (m *T) Size() uint32``."""
+    out: Dict[str, int] = {}
+    for f in gofile.funcs:
+        if f.name != "Size" or f.recv_type is None:
+            continue
+        if len(f.body) != 1 or f.body[0][0] != "return" or len(f.body[0][1]) != 1:
+            raise GoParseError(f"unexpected body of {f.qualname}: "
+                               + "; ".join(map(stmt_str, f.body)), f.line)
+        v = _const_int(f.body[0][1][0])
+        if v is None:
+            raise GoParseError(f"{f.qualname} does not return an integer literal", f.line)
+        out[f.recv_type] = v
+    return out
+
+
+def _qualified_call(e: tuple) -> Optional[Tuple[str, str, List[tuple]]]:
+    """``pkg.Fn(args)`` -> (pkg, Fn, args)."""
+    if e[0] == "call" and e[1][0] == "sel" and e[1][1][0] == "ident":
+        return e[1][1][1], e[1][2], e[2]
+    return None
+
+
+def _bool_lit(e: tuple) -> Optional[bool]:
+    e = _unparen(e)
+    if e[0] == "ident" and e[1] in ("true", "false"):
+        return e[1] == "true"
+    return None
+
+
+def _type_name_of(e: tuple) -> Optional[str]:
+    """Identifier or pkg.Identifier expression -> dotted name."""
+    if e[0] == "ident":
+        return e[1]
+    if e[0] == "sel" and e[1][0] == "ident":
+        return f"{e[1][1]}.{e[2]}"
+    return None
+
+
+def _processor_expr(e: tuple, bp_alias: str = "bp") -> dict:
+    """Translate one processor constructor expression into the tree encoding."""
+    line = e[-1]
+    src = expr_str(e)
+    qc = _qualified_call(e)
+    if qc and qc[0] == bp_alias:
+        _, fn, args = qc
+        if fn == "NewBool" and not args:
+            return {"kind": "bool"}
+        if fn == "NewByte" and not args:
+            return {"kind": "byte"}
+        if fn in ("NewUint", "NewInt") and len(args) == 1:
+            n = _const_int(args[0])
+            if n is None:
+                raise GoParseError(f"non-constant nbits in {src}", line)
+            return {"kind": "uint" if fn == "NewUint" else "int", "nbits": n}
+        if fn == "NewArray" and len(args) == 3:
+            ext, cap = _bool_lit(args[0]), _const_int(args[1])
+            if ext is None or cap is None:
+                raise GoParseError(f"unexpected NewArray arguments in {src}", line)
+            return {"kind": "array", "extensible": ext, "cap": cap,
+                    "elem": _processor_expr(args[2], bp_alias)}
+        if fn == "NewEnumProcessor" and len(args) == 1:
+            inner = _processor_expr(args[0], bp_alias)
+            if inner.get("kind") != "uint":
+                raise GoParseError(f"NewEnumProcessor argument is not NewUint(n) in {src}", line)
+            return {"kind": "enum", "nbits": inner["nbits"]}
+        if fn == "NewAliasProcessor" and len(args) == 1:
+            return {"kind": "alias", "to": _processor_expr(args[0], bp_alias)}
+        raise GoParseError(f"unknown processor constructor {src}", line)
+    # (X).BpProcessor()
+    if e[0] == "call" and not e[2] and e[1][0] == "sel" and e[1][2] == "BpProcessor":
+        x = _unparen(e[1][1])
+        if x[0] == "unary" and x[1] == "&" and x[2][0] == "complit" and not x[2][2]:
+            return {"kind": "ref", "name": type_str(x[2][1]), "form": "&{}"}
+        if x[0] == "complit" and not x[2]:
+            return {"kind": "ref", "name": type_str(x[1]), "form": "{}"}
+        if x[0] == "call" and len(x[2]) == 1:
+            name = _type_name_of(x[1])
+            a = x[2][0]
+            if name is not None:
+                if a[0] == "int" and a[1] == 0:
+                    return {"kind": "ref", "name": name, "form": "(0)"}
+                if a[0] == "ident" and a[1] == "false":
+                    return {"kind": "ref", "name": name, "form": "(false)"}
+    raise GoParseError(f"unrecognised processor expression {src}", line)
+
+
+def _bp_alias(gofile: GoFile) -> str:
+    for alias, path in gofile.imports:
+        if path == "github.com/hit9/bitproto/lib/go":
+            return alias or "bitproto"
+    return "bp"
+
+
+def processor_tree(gofile: GoFile, type_name: str) -> dict:
+    """Tree parsed from ``func (m *T) BpProcessor()`` / ``func (m T) BpProcessor()``."""
+    fn = gofile.func("BpProcessor", type_name)
+    if fn is None:
+        raise KeyError(f"no method {type_name}.BpProcessor")
+    bp = _bp_alias(gofile)
+    body = fn.body
+    if len(body) == 1 and body[0][0] == "return" and len(body[0][1]) == 1:
+        return _processor_expr(body[0][1][0], bp)
+    # message form
+    if (len(body) == 2 and body[0][0] == "assign" and body[0][1] == ":="
+            and len(body[0][2]) == 1 and len(body[0][3]) == 1
+            and body[1][0] == "return" and len(body[1][1]) == 1):
+        var = body[0][2][0][1]
+        lit = body[0][3][0]
+        want = ("slice", ("ptr", ("qual", bp, "MessageFieldProcessor")))
+        if lit[0] != "complit" or lit[1] != want:
+            raise GoParseError(f"unexpected field descriptor literal in {fn.qualname}: "
+                               + expr_str(lit), fn.line)
+        fields = []
+        for key, v in lit[2]:
+            qc = _qualified_call(v)
+            if key is not None or not qc or qc[0] != bp or qc[1] != "NewMessageFieldProcessor" \
+                    or len(qc[2]) != 2:
+                raise GoParseError(f"unexpected field descriptor {expr_str(v)}", v[-1])
+            num = _const_int(qc[2][0])
+            if num is None:
+                raise GoParseError(f"non-constant field number in {expr_str(v)}", v[-1])
+            fields.append({"number": num, "processor": _processor_expr(qc[2][1], bp)})
+        ret = body[1][1][0]
+        qc = _qualified_call(ret)
+        if not qc or qc[0] != bp or qc[1] != "NewMessageProcessor" or len(qc[2]) != 3:
+            raise GoParseError(f"unexpected return in {fn.qualname}: {expr_str(ret)}", ret[-1])
+        ext, nbits = _bool_lit(qc[2][0]), _const_int(qc[2][1])
+        third = qc[2][2]
+        if ext is None or nbits is None or third[0] != "ident" or third[1] != var:
+            raise GoParseError(f"unexpected NewMessageProcessor arguments: {expr_str(ret)}", ret[-1])
+        return {"kind": "message", "extensible": ext, "nbits": nbits, "fields": fields}
+    raise GoParseError(f"unexpected body shape of {fn.qualname}", fn.line)
+
+
+def _data_ref(e: tuple, recv: str = "m", di: str = "di") -> Optional[Tuple[str, List[int]]]:
+    """``m.Field[di.I(0)][di.I(1)]`` -> ('Field', [0, 1]); None if not of that shape."""
+    idx: List[int] = []
+    while e[0] == "index":
+        i = e[2]
+        if not (i[0] == "call" and len(i[2]) == 1 and i[1][0] == "sel" and i[1][2] == "I"
+                and i[1][1][0] == "ident" and i[1][1][1] == di):
+            return None
+        k = _const_int(i[2][0])
+        if k is None:
+            return None
+        idx.append(k)
+        e = e[1]
+    if e[0] == "sel" and e[1][0] == "ident" and e[1][1] == recv:
+        idx.reverse()
+        return e[2], idx
+    return None
+
+
+def _is_ident(e: tuple, name: str) -> bool:
+    return e[0] == "ident" and e[1] == name
+
+
+def _single_call(e: tuple) -> Optional[Tuple[str, tuple]]:
+    """``Name(x)`` / ``pkg.Name(x)`` with exactly one argument -> (dotted name, x)."""
+    if e[0] == "call" and len(e[2]) == 1:
+        n = _type_name_of(e[1])
+        if n is not None:
+            return n, e[2][0]
+    return None
+
+
+def _case_setbyte(body: List[tuple], bp: str, info: dict) -> bool:
+    if len(body) != 1 or body[0][0] != "assign" or len(body[0][2]) != 1 or len(body[0][3]) != 1:
+        return False
+    op, lhs, rhs = body[0][1], body[0][2][0], body[0][3][0]
+    if op not in ("=", "|="):
+        return False
+    ref = _data_ref(lhs)
+    if ref is None:
+        return False
+    info["field"], info["indices"] = ref
+    info["depth"] = len(ref[1])
+    info["assign"] = op
+    x = _unparen(rhs)
+    shifted = False
+    if x[0] == "binary" and x[1] == "<<":
+        if not _is_ident(x[3], "lshift"):
+            return False
+        shifted = True
+        x = _unparen(x[2])
+    conv = None
+    byte2bool = False
+
+    def is_b2b(y: tuple) -> bool:
+        c = _single_call(y)
+        return c is not None and c[0] == f"{bp}.Byte2bool" and _is_ident(c[1], "b")
+
+    if is_b2b(x):
+        byte2bool = True
+    else:
+        c = _single_call(x)
+        if c is None:
+            return False
+        conv, inner = c
+        inner = _unparen(inner)
+        if _is_ident(inner, "b"):
+            pass
+        elif is_b2b(inner):
+            byte2bool = True
+        else:
+            return False
+    info.update(conv=conv, byte2bool=byte2bool, shifted=shifted)
+    return True
+
+
+def _case_getbyte(body: List[tuple], bp: str, info: dict) -> bool:
+    if len(body) != 1 or body[0][0] != "return" or len(body[0][1]) != 1:
+        return False
+    x = _unparen(body[0][1][0])
+    bool2byte, inner_conv, conv, shifted = False, None, None, False
+    if x[0] == "binary" and x[1] == ">>" and _is_ident(x[3], "rshift"):
+        # bp.Bool2byte(data) >> rshift
+        shifted = True
+        c = _single_call(_unparen(x[2]))
+        if c is None or c[0] != f"{bp}.Bool2byte":
+            return False
+        bool2byte = True
+        data = c[1]
+        ref = _data_ref(data)
+        if ref is None:
+            c2 = _single_call(data)
+            if c2 is None:
+                return False
+            inner_conv = c2[0]
+            ref = _data_ref(c2[1])
+            if ref is None:
+                return False
+    else:
+        c = _single_call(x)
+        if c is None:
+            return False
+        conv = c[0]
+        y = _unparen(c[1])
+        if y[0] == "binary" and y[1] == ">>" and _is_ident(y[3], "rshift"):
+            shifted = True
+            y = y[2]
+        ref = _data_ref(y)
+        if ref is None:
+            return False
+    info["field"], info["indices"] = ref
+    info["depth"] = len(ref[1])
+    info.update(bool2byte=bool2byte, inner_conv=inner_conv, conv=conv, shifted=shifted)
+    return True
+
+
+def _case_processint(body: List[tuple], bp: str, info: dict) -> bool:
+    if len(body) != 2:
+        return False
+    a, b = body
+    for st, op in ((a, "<<="), (b, ">>=")):
+        if st[0] != "assign" or st[1] != op or len(st[2]) != 1 or len(st[3]) != 1:
+            return False
+    ref = _data_ref(a[2][0])
+    shl, shr = _const_int(a[3][0]), _const_int(b[3][0])
+    if ref is None or shl is None or shr is None:
+        return False
+    info["field"], info["indices"] = ref
+    info["depth"] = len(ref[1])
+    info.update(shl=shl, shr=shr, same_target=expr_str(a[2][0]) == expr_str(b[2][0]))
+    return True
+
+
+def _case_getaccessor(body: List[tuple], bp: str, info: dict) -> bool:
+    if len(body) != 1 or body[0][0] != "return" or len(body[0][1]) != 1:
+        return False
+    x = body[0][1][0]
+    addr = False
+    if x[0] == "unary" and x[1] == "&":
+        addr = True
+        x = x[2]
+    ref = _data_ref(_unparen(x))
+    if ref is None:
+        return False
+    info["field"], info["indices"] = ref
+    info["depth"] = len(ref[1])
+    info["addr_of"] = addr
+    return True
+
+
+_CASE_PARSERS = {
+    "BpSetByte": _case_setbyte, "BpGetByte": _case_getbyte,
+    "BpProcessInt": _case_processint, "BpGetAccessor": _case_getaccessor,
+}
+_DEFAULT_SHAPES = {
+    "BpSetByte": ("return",), "BpProcessInt": ("return",),
+    "BpGetByte": ("return byte(0)",), "BpGetAccessor": ("return nil",),
+}
+
+
+def accessor_tables(gofile: GoFile, type_name: str) -> dict:
+    """Case tables of BpSetByte / BpGetByte / BpProcessInt / BpGetAccessor.
+
+    Result: ``{table: [case dict, ...], ..., 'default': {table: bool|None},
+    'default_body': {table: text}, 'problems': [text, ...]}``.  A case dict has
+    'number' (int, or None for a non-constant case expression), 'line', and
+    either the parsed keys described in the module documentation or
+    ``'unparsed': source text``.  ``default[table]`` is None if the method is
+    missing or its body is not a single ``switch di.F()``.
+    """
+    bp = _bp_alias(gofile)
+    out: dict = {"default": {}, "default_body": {}, "problems": []}
+    for table, parse_case in _CASE_PARSERS.items():
+        cases: List[dict] = []
+        out[table] = cases
+        fn = gofile.func(table, type_name)
+        if fn is None:
+            out["default"][table] = None
+            out["problems"].append(f"{type_name}.{table}: method missing")
+            continue
+        body = fn.body
+        sw = body[0] if len(body) == 1 and body[0][0] == "switch" else None
+        tag_ok = False
+        if sw is not None and sw[1] is None and sw[2] is not None:
+            tg = sw[2]
+            tag_ok = (tg[0] == "call" and not tg[2] and tg[1][0] == "sel" and tg[1][2] == "F"
+                      and _is_ident(tg[1][1], "di"))
+        if sw is None or not tag_ok:
+            out["default"][table] = None
+            out["problems"].append(f"{type_name}.{table}: body is not a single `switch di.F()`")
+            cases.append({"number": None, "line": fn.line,
+                          "unparsed": gofile.source(fn.src)})
+            continue
+        has_default = False
+        for exprs, cbody, line, span in sw[3]:
+            src = gofile.source(span).strip()
+            if exprs is None:
+                has_default = True
+                norm = "; ".join(map(stmt_str, cbody))
+                out["default_body"][table] = norm
+                if norm not in _DEFAULT_SHAPES[table]:
+                    out["problems"].append(
+                        f"{type_name}.{table}: unexpected default branch `{norm}` (line {line})")
+                continue
+            for ce in exprs:
+                info: dict = {"number": _const_int(ce), "line": line}
+                scratch = dict(info)
+                if info["number"] is not None and parse_case(cbody, bp, scratch):
+                    info = scratch
+                else:
+                    info["unparsed"] = src if info["number"] is not None else \
+                        f"case {expr_str(ce)}: {src}"
+                cases.append(info)
+        out["default"][table] = has_default
+    return out
